@@ -3,6 +3,7 @@
    key's type — which holds for every record the library hands out (valid_pairs_ok, from C05).
    Port statements hold for ALL p by arithmetic (not by enumerating 65536 values). *)
 Require Import Enr.Bytes Enr.Consts Enr.Rlp Enr.SortedMap Enr.Keccak Enr.Record Enr.Update Enr.Spec Enr.Toy.
+Require Import EnrProofs.Thm_Access2.
 Require Import EnrProofs.Thm_Valid EnrProofs.Thm_Refine EnrProofs.Thm_Access EnrProofs.Thm_ReadBack.
 Open Scope N_scope.
 
@@ -152,3 +153,65 @@ Theorem insert_reads_back : forall (c : crypto) kt r key v k sg x r',
   end.
 Proof. exact Thm_ReadBack.insert_reads_back. Qed.
 Print Assumptions insert_reads_back.
+
+(* ---- with no side condition on the record: the accessor is a function of the stored bytes alone; it reports v
+   exactly when they begin with the canonical encoding of v (on records handed out nothing follows: the iffs above) ---- *)
+Theorem port_iff_prefix : forall r k v p,
+  sm_get k (content r) = Some v -> bytes_ok v ->
+  (port r k = Some p <-> exists rest, v = enc_uint p ++ rest /\ p < 65536).
+Proof. exact Thm_Access2.port_iff_prefix. Qed.
+Print Assumptions port_iff_prefix.
+Theorem port_absent : forall r k, sm_get k (content r) = None -> port r k = None.
+Proof. exact Thm_Access2.port_absent. Qed.
+Print Assumptions port_absent.
+Theorem ip4_iff_prefix : forall r v a,
+  sm_get k_ip (content r) = Some v -> bytes_ok v ->
+  (ip4 r = Some a <-> exists rest, v = enc_string a ++ rest /\ lenN a = 4).
+Proof. exact Thm_Access2.ip4_iff_prefix. Qed.
+Print Assumptions ip4_iff_prefix.
+Theorem ip6_iff_prefix : forall r v a,
+  sm_get k_ip6 (content r) = Some v -> bytes_ok v ->
+  (ip6 r = Some a <-> exists rest, v = enc_string a ++ rest /\ lenN a = 16).
+Proof. exact Thm_Access2.ip6_iff_prefix. Qed.
+Print Assumptions ip6_iff_prefix.
+Theorem client_info_iff_prefix : forall r v l,
+  sm_get k_client (content r) = Some v -> bytes_ok v ->
+  Forall (fun s => lenN s < 2 ^ 64) l -> lenN (flat_map enc_string l) < 2 ^ 64 ->
+  (client_info r = Some l <-> exists rest, v = enc_strings l ++ rest /\ (length l = 2 \/ length l = 3)%nat).
+Proof. exact Thm_Access2.client_info_iff_prefix. Qed.
+Print Assumptions client_info_iff_prefix.
+
+(* ---- read-back with no premise on the resulting record ---- *)
+Theorem set_port_reads_back_any : forall (c : crypto) kt r k sg p x r',
+  seq r < 2 ^ 64 -> p < 65536 ->
+  (step c kt r (OSetUdp4 p) k sg = (Ok x, r') -> udp4 r' = Some p) /\
+  (step c kt r (OSetUdp6 p) k sg = (Ok x, r') -> udp6 r' = Some p) /\
+  (step c kt r (OSetTcp4 p) k sg = (Ok x, r') -> tcp4 r' = Some p) /\
+  (step c kt r (OSetTcp6 p) k sg = (Ok x, r') -> tcp6 r' = Some p).
+Proof. exact Thm_Access2.set_port_reads_back_any. Qed.
+Print Assumptions set_port_reads_back_any.
+
+Theorem set_client_info_reads_back : forall (c : crypto) kt r k sg x r' l,
+  seq r < 2 ^ 64 -> Forall (fun s => lenN s < 2 ^ 64) l -> lenN (flat_map enc_string l) < 2 ^ 64 ->
+  (length l = 2 \/ length l = 3)%nat ->
+  step c kt r (OSetClientInfo l) k sg = (Ok x, r') ->
+  client_info r' = Some l /\ sm_get k_client (content r') = Some (enc_strings l).
+Proof. exact Thm_Access2.set_client_info_reads_back. Qed.
+Print Assumptions set_client_info_reads_back.
+
+Theorem build_ip4_reads_back : forall (c : crypto) kt sq calls k sg r pre a post,
+  sq < 2 ^ 64 -> build c kt sq calls k sg = Ok r -> calls = pre ++ BIp4 a :: post -> lenN a = 4 ->
+  ~ In k_ip (map fst (map bcall_pair post)) -> ip4 r = Some a.
+Proof. exact Thm_Access2.build_ip4_reads_back. Qed.
+Print Assumptions build_ip4_reads_back.
+Theorem build_ip6_reads_back : forall (c : crypto) kt sq calls k sg r pre a post,
+  sq < 2 ^ 64 -> build c kt sq calls k sg = Ok r -> calls = pre ++ BIp6 a :: post -> lenN a = 16 ->
+  ~ In k_ip6 (map fst (map bcall_pair post)) -> ip6 r = Some a.
+Proof. exact Thm_Access2.build_ip6_reads_back. Qed.
+Print Assumptions build_ip6_reads_back.
+Theorem build_client_reads_back : forall (c : crypto) kt sq calls k sg r pre l post,
+  sq < 2 ^ 64 -> build c kt sq calls k sg = Ok r -> calls = pre ++ BClient l :: post ->
+  Forall (fun s => lenN s < 2 ^ 64) l -> lenN (flat_map enc_string l) < 2 ^ 64 -> (length l = 2 \/ length l = 3)%nat ->
+  ~ In k_client (map fst (map bcall_pair post)) -> client_info r = Some l.
+Proof. exact Thm_Access2.build_client_reads_back. Qed.
+Print Assumptions build_client_reads_back.
